@@ -5,7 +5,8 @@ package nutsdb
 // Differential: observation before Merge vs after; a twin database that never merges receives the same
 // history and the same later writes.
 
-// params: mode (0/1), rw, profile, ntx, maxops, nseg, crash (0/1)
+// params: mode (0/1), rw, profile, ntx, maxops, nseg, crash (0/1), seed, simplemore, conc, adv (0/1/2),
+// sync, power (crash variant under the power-loss model of C11)
 func H_C15_Merge() {
 	vSetup()
 	defer vCleanup()
@@ -14,8 +15,12 @@ func H_C15_Merge() {
 	seg := segs[vChoose(vParam("nseg"))]
 	crash := vParam("crash") == 1
 	dir := vDir()
-	opt := vOptsFull(dir, mode, rw, rw, seg, false)
+	syncOn, power := vParam("sync") == 1, vParam("power") == 1
+	opt := vOptsFull(dir, mode, rw, rw, seg, syncOn)
 	structs := mode == HintKeyValAndRAMIdxMode
+	if vParam("adv") == 2 {
+		vTTL = 3 // TTL records are still live when the merge runs and expire afterwards
+	}
 	profile := vParam("profile")
 	vConcreteArgs, vArgCounter = vParam("conc") == 1, 0
 	txs := genTxs(profile, vParam("ntx"), vParam("maxops"))
@@ -37,7 +42,7 @@ func H_C15_Merge() {
 	}
 	if crash && !vEngine() {
 		// native replay of a crash image: the expected state comes from a native twin
-		optT := vOptsFull(vDir(), mode, rw, rw, seg, false)
+		optT := vOptsFull(vDir(), mode, rw, rw, seg, syncOn)
 		dbT, err := Open(optT)
 		if err != nil {
 			vFail("c16.open-twin")
@@ -45,7 +50,7 @@ func H_C15_Merge() {
 		}
 		runTxs(dbT, seedTxs)
 		runTxs(dbT, txs)
-		if vParam("adv") == 1 {
+		if vParam("adv") >= 1 {
 			vAdvance(2)
 		}
 		o0 := observe(dbT, keys, structs)
@@ -67,6 +72,10 @@ func H_C15_Merge() {
 		db2.Close()
 		return
 	}
+	if vEngine() {
+		vPowerLossMode(power)
+		vFewCuts(power) // every-byte tearing is exercised by the process-crash configurations
+	}
 	db, err := Open(opt)
 	if err != nil {
 		vFail("c15.open")
@@ -78,7 +87,7 @@ func H_C15_Merge() {
 	var dbB *DB
 	if !crash {
 		var err error
-		dbB, err = Open(vOptsFull(vDir(), mode, rw, rw, seg, false))
+		dbB, err = Open(vOptsFull(vDir(), mode, rw, rw, seg, syncOn))
 		if err != nil {
 			vFail("c15.open-twin")
 			return
@@ -86,8 +95,9 @@ func H_C15_Merge() {
 		runTxs(dbB, seedTxs)
 		runTxs(dbB, txs)
 	}
-	if vParam("adv") == 1 {
-		// let TTL=1 records expire before the merge (superseded-by-expired versions must stay dead)
+	if vParam("adv") >= 1 {
+		// adv=1: TTL=1 records expire before the merge (superseded-by-expired versions must stay dead);
+		// adv=2: TTL=3 records are live at the merge and must still expire on their original deadline
 		vAdvance(2)
 	}
 	o0 := observe(db, keys, structs)
@@ -105,10 +115,19 @@ func H_C15_Merge() {
 		vArm()
 		alive := vTry(func() { _ = db.Merge() })
 		vDisarm()
-		if alive {
+		if alive && !power {
 			vObserveInt("crashed", 0)
 			return
 		}
+		if power {
+			// the power fails at the crash point, or after Merge returned: every file keeps its content or
+			// reverts to its last sync; what Merge rewrote must be durable before it removes the source
+			// known finding: Merge unlinks the segments one after another without making the removals
+			// durable in order, so a later removal can survive a power failure that undoes an earlier one
+			vKnown("KF-C11-merge-unlink-order", vPowerFail(dir))
+		}
+		vPowerLossMode(false)
+		vFewCuts(false)
 		vImageSave(dir)
 		vObserveInt("crashed", 1)
 		db2, err := Open(opt)
@@ -133,6 +152,9 @@ func H_C15_Merge() {
 	}
 	runTxs(db, more)
 	runTxs(dbB, more)
+	if vParam("adv") == 2 {
+		vAdvance(2) // past the original deadline of the TTL=3 records
+	}
 	oB := observe(dbB, keys, structs)
 	oA := observe(db, keys, structs)
 	obsDescribe("merged+more", oA)
